@@ -7,6 +7,7 @@ import common
 import tablelib as tl
 import tableext as tx
 import tablegrp as tg
+import tablexf as tf
 
 KINDS = ['empty', 'prefilled', 'rle', 'rle', 'sample']
 
@@ -26,6 +27,8 @@ def _replay_worker(case):
         return case, tx.run_case2(odfdo, case)
     if case.get('family') == 'grp':
         return case, tg.run_case3(odfdo, case)
+    if case.get('family') == 'xf':
+        return case, tf.run_case4(odfdo, case)
     return case, tl.run_case(odfdo, case)
 
 
@@ -39,6 +42,17 @@ def _worker3(job):
     seed, nsteps, kinds, maxw, maxh = job
     odfdo = common.use_repo()
     return tg.gen_and_run3(odfdo, seed, nsteps, kinds, maxw, maxh), None
+
+
+def _worker4(job):
+    seed, nsteps, kinds, maxw, maxh = job
+    odfdo = common.use_repo()
+    return tf.gen_and_run4(odfdo, seed, nsteps, kinds, maxw, maxh), None
+
+
+def plan_xf(tier, rng, kinds):
+    n = 200 if tier == 'quick' else 2500
+    return [(rng.getrandbits(48), rng.randint(1, 5 if tier == 'quick' else 8), kinds, 8, 8) for _ in range(n)]
 
 
 def plan_grp(tier, rng, kinds):
@@ -214,9 +228,9 @@ def row_sweep(tier, only=None, rng=None):
 
 def pre_xml_of(odfdo, case, step):
     """serialised table right before step `step` (for shrinking)"""
-    d = tx.Driver2(odfdo, case['init_xml'])
+    d = tf.Driver4(odfdo, case['init_xml']) if case.get('family') == 'xf' else tx.Driver2(odfdo, case['init_xml'])
     for st in case['steps'][:step]:
-        d.apply2(st['op'])
+        (d.apply4 if case.get('family') == 'xf' else d.apply2)(st['op'])
         for q in st.get('reads', []):
             try: d.read(q)
             except Exception: pass
@@ -226,11 +240,13 @@ def pre_xml_of(odfdo, case, step):
     return tl.timed(d.table.serialize)
 
 
+
 def evaluate(cases, checker, tag):
     """run cases on the implementation and in Coq; returns (results, {index: code}, coq errors)"""
     results = drive(cases, fn=_replay_worker)
     out, errors = {}, []
-    for fam, header, chk in (('main', tl.HEADER, checker), ('ext', tx.HEADER2, checker + 'x'), ('grp', tg.HEADER3, checker + 'g')):
+    for fam, header, chk in (('main', tl.HEADER, checker), ('ext', tx.HEADER2, checker + 'x'), ('grp', tg.HEADER3, checker + 'g'),
+                             ('xf', tf.HEADER4, checker + 'f')):
         terms, idx = [], []
         for i, (case, res) in enumerate(results):
             if res['term'] is not None and case.get('family', 'main') == fam:
@@ -278,7 +294,8 @@ def run_table_check(prop, tier, seed, replay, checker, layers, soft_codes, kinds
         gen = drive(jobs)
         gen2 = drive(plan_ext(tier, rng, live=(prop == 'C01')), fn=_worker2)
         gen3 = drive(plan_grp(tier, rng, kinds), fn=_worker3)
-        cases = corpus + [c for c, r in gen] + [c for c, r in gen2] + [c for c, r in gen3]
+        gen4 = drive(plan_xf(tier, rng, kinds), fn=_worker4)
+        cases = corpus + [c for c, r in gen] + [c for c, r in gen2] + [c for c, r in gen3] + [c for c, r in gen4]
         results, bad, errors = evaluate(cases, checker, prop.lower())
         sweep = row_sweep(tier, rng=rng) if prop == 'C01' else None
     violations, known_seen, notes = [], [], []
